@@ -98,6 +98,7 @@ def symS (s : Stmt) (a : AState) : AState :=
       else a.fail
   | .aliasStart _ _ => a.fail
   | .shallowCopyStart _ _ => a.fail
+  | .levelCopyStart _ _ _ => a.fail
   | .ngenDefault => a.fail
   | .initIfNeeded => a.fail
   | .callReset => a.fail
